@@ -173,3 +173,27 @@ Example c06_report_bound_tight : 2 * zlen (reported [9; 0]) = zlen [9; 0].
 Proof. vm_compute. reflexivity. Qed.
 Example c06_report_bound_tight3 : 2 * zlen (reported [7; 0; 8; 0; 9; 0]) = zlen [7; 0; 8; 0; 9; 0].
 Proof. vm_compute. reflexivity. Qed.
+
+(* ---- the translated iterator on a concrete buffer: SSID "abc", DS 6, placed at address 4096 ---- *)
+From Coq Require Import String.
+From LW Require Import Base.CExpr Gen.Sites Spec.CodeSpec.
+Local Open Scope string_scope.
+Local Open Scope Z_scope.
+Definition code_buf : list byte := [0; 3; 97; 98; 99; 3; 1; 6].
+Example c06_code_init_refines_model_nonvacuous :
+  wfbytes code_buf /\ 0 <= 4096 /\ 4096 + zlen code_buf < 2 ^ 62 /\
+  observe (exec 30 (mem_at 4096 code_buf) (upd (upd (fun _ => 0) "tags_start" 4096) "data_len" (zlen code_buf)) []
+                body_libwifi_tag_iterator_init) = Some (Some 0, []).
+Proof. split; [apply wfbytesb_spec; vm_compute; reflexivity | ]. repeat split; vm_compute; congruence || reflexivity. Qed.
+(* the second element is reported (its number, 3, is returned), a buffer cut inside it ends the iteration with -1 *)
+Example c06_code_next_refines_model_instance :
+  let it := {| it_hdr := 0; it_data := 2; it_next := 5; it_end := 7 |} in
+  observe (exec 30 (mem_at 4096 code_buf) (it_env (fun _ => 0) 4096 it) [] body_libwifi_tag_iterator_next) = Some (Some 3, []) /\
+  observe (exec 30 (mem_at 4096 (firstn 7 code_buf)) (it_env (fun _ => 0) 4096 {| it_hdr := 0; it_data := 2; it_next := 5; it_end := 6 |}) []
+                body_libwifi_tag_iterator_next) = Some (Some (-1), []).
+Proof. split; vm_compute; reflexivity. Qed.
+(* reading one byte beyond the buffer makes the translated code stuck: with the last byte not readable the same call gets no answer *)
+Example c06_code_stuck_outside :
+  observe (exec 30 (mem_at 4096 (firstn 6 code_buf)) (it_env (fun _ => 0) 4096 {| it_hdr := 0; it_data := 2; it_next := 5; it_end := 7 |}) []
+                body_libwifi_tag_iterator_next) = None.
+Proof. vm_compute. reflexivity. Qed.
